@@ -31,10 +31,16 @@ REQUIRED = ["deliveries", "invocations", "reentrant_sub", "reentrant_sub_prio",
             "weak_dropped", "handler_revent_errors",
             "noerrors_swallowed_with_reporting_hook_on",
             "lazily_initialised_sources", "halts_through_the_event_attribute",
-            "sinks_bound_with_several_handlers"]
+            "sinks_bound_with_several_handlers",
+            "handlers_returning_plain_values"]
 TIMEOUT = {"quick": 600, "thorough": 5400}
 
 RETS = ["none", "true", "false", "cont", "halt", "remove", "haltremove"]
+# values a handler may return that are no request at all (a count, a flag kept
+# as a number, a string): they neither halt nor unsubscribe, however much 0 and
+# 1 look like False and True
+PLAIN_RETS = {"zero": 0, "one": 1, "fzero": 0.0, "fone": 1.0, "text": "ok",
+              "empty": "", "two": 2}
 PRIOS = [0, 5, -1, 0]
 
 
@@ -546,11 +552,14 @@ class World (object):
     R = self.R
     val = {"none": None, "true": True, "false": False,
            "cont": R.EventContinue, "halt": R.EventHalt,
-           "remove": R.EventRemove, "haltremove": R.EventHaltAndRemove}[ret or "none"]
+           "remove": R.EventRemove, "haltremove": R.EventHaltAndRemove}
+    val.update(PLAIN_RETS)
+    val = val[ret or "none"]
+    if ret in PLAIN_RETS: self.rep.count("handlers_returning_plain_values")
     if ret in ("true", "halt", "haltremove"):
       d.halted = True
     if sethalt: d.attr = True
-    if d.attr and ret in ("cont", "remove", "false"):
+    if d.attr and (ret in ("cont", "remove", "false") or ret in PLAIN_RETS):
       # halt requested through the event's attribute: it takes effect at the
       # next handler (this one included) that returns something other than
       # None; with None returns it is not judged
@@ -781,7 +790,7 @@ def do_case (case, rep):
 def behaviours ():
   """Small alphabet of handler scripts for the exhaustive part."""
   B = []
-  for r in ("none", "true", "remove", "haltremove", "false"):
+  for r in ("none", "true", "remove", "haltremove", "false", "zero", "one"):
     B.append([[["ret", r]]])
   B.append([[["exc"]]])
   B.append([[["exc", "base"]]])
@@ -840,7 +849,8 @@ def rand_script (rng, depth):
                                         "sysexit", "genexit"])])
     if rng.random() < 0.08:
       step.append(["sethalt"])
-    step.append(["ret", rng.choice(RETS + ["none", "none", "none"])])
+    step.append(["ret", rng.choice(RETS + ["none", "none", "none"] +
+                                   (list(PLAIN_RETS) if rng.random() < 0.3 else []))])
     out.append(step)
   return out
 
